@@ -35,9 +35,15 @@ var errExecFailed = errors.New("harness: exec'd command failed")
 func scenExec(out *scenOut, r *rng, thorough bool) {
 	out.Rule = "mode state at the moment of the exec (options + mode commands) x outcome (success, error) x callback present or not x 1..3 consecutive execs x what ends the program (quit afterwards, Kill or context cancellation DURING the exec), input on an os.Pipe; distinct = tuples"
 	quietStdio()
-	n := 24
+	n := 16
 	if thorough {
 		n = 200
+	}
+	// the shapes the property singles out run first: consecutive execs from the
+	// alt screen and inline, with a view the launching update leaves unchanged
+	for _, bits := range []int{1, 0, 1 | 16, 8} {
+		execOnce(out, bits, nil, 3, bits == 0, true, "quit", true, 60)
+		execOnce(out, bits, nil, 2, false, false, "quit", false, 20)
 	}
 	for i := 0; i < n; i++ {
 		bits := r.intn(32)
@@ -47,17 +53,17 @@ func scenExec(out *scenOut, r *rng, thorough bool) {
 			hist = append(hist, r.intn(len(modeCmds)))
 		}
 		end := []string{"quit", "quit", "kill-during", "panic-cmd-during"}[r.intn(4)]
-		execOnce(out, bits, hist, nexec, r.chance(1, 3), r.chance(3, 4), end)
+		execOnce(out, bits, hist, nexec, r.chance(1, 3), r.chance(3, 4), end, r.chance(1, 2), []int{20, 60, 120}[r.intn(3)])
 	}
 }
 
-func execOnce(out *scenOut, bits int, hist []int, nexec int, fail, withCallback bool, end string) {
+func execOnce(out *scenOut, bits int, hist []int, nexec int, fail, withCallback bool, end string, constView bool, fps int) {
 	o := modeOpts{alt: bits&1 != 0, cell: bits&2 != 0, all: bits&4 != 0, nopaste: bits&8 != 0, focus: bits&16 != 0}
 	var names []string
 	for _, i := range hist {
 		names = append(names, modeCmds[i].name)
 	}
-	desc := fmt.Sprintf("opts{%s} cmds=[%s] execs=%d fail=%t callback=%t end=%s", o, strings.Join(names, ","), nexec, fail, withCallback, end)
+	desc := fmt.Sprintf("opts{%s} cmds=[%s] execs=%d fail=%t callback=%t end=%s constant-view=%t fps=%d", o, strings.Join(names, ","), nexec, fail, withCallback, end, constView, fps)
 	ctl := newRecCtl()
 	buf := &safeBuffer{}
 	pr, pw, err := os.Pipe()
@@ -86,7 +92,7 @@ func execOnce(out *scenOut, bits int, hist []int, nexec int, fail, withCallback 
 		}
 		// Bubble Tea writes nothing while the command runs
 		before := buf.Len()
-		time.Sleep(30 * time.Millisecond) // several frame intervals at 120 fps
+		time.Sleep(time.Duration(2500/fps+10) * time.Millisecond) // more than two frame intervals
 		if buf.Len() != before {
 			problem(fmt.Sprintf("%d bytes written to the output while the command ran", buf.Len()-before))
 		}
@@ -145,8 +151,13 @@ func execOnce(out *scenOut, bits int, hist []int, nexec int, fail, withCallback 
 		}
 		return nil
 	}
-	ctl.viewOf = func(version, updates int) string { return fmt.Sprintf("VIEW-%d\nsecond line\n", updates) }
-	opts := append(o.options(), tea.WithoutSignalHandler(), tea.WithFPS(120), tea.WithInput(pr))
+	ctl.viewOf = func(version, updates int) string {
+		if constView {
+			return "VIEW\nsecond line\n" // the update that launches the command leaves the view unchanged
+		}
+		return fmt.Sprintf("VIEW-%d\nsecond line\n", updates)
+	}
+	opts := append(o.options(), tea.WithoutSignalHandler(), tea.WithFPS(fps), tea.WithInput(pr))
 	run := startProgram(ctl, buf, opts...)
 	prog = run.p
 	if !waitFor(3*time.Second, func() bool { return ctl.log.has("view-exit", "") }) {
@@ -176,7 +187,7 @@ func execOnce(out *scenOut, bits int, hist []int, nexec int, fail, withCallback 
 			waitFor(3*time.Second, func() bool { return int(atomic.LoadInt32(&execRuns)) >= e })
 			time.Sleep(40 * time.Millisecond)
 		}
-		time.Sleep(30 * time.Millisecond)
+		time.Sleep(time.Duration(2500/fps+10) * time.Millisecond)
 		// modes re-established: alt, paste, focus as before; cursor hidden
 		t := newVterm(80, 24)
 		t.write([]byte(buf.String()))
